@@ -1,6 +1,9 @@
+import DryocVerif.Proofs.GenProtectedShape
 import DryocVerif.Model.Protected
 import DryocVerif.Proofs.Protected
 import DryocVerif.Proofs.ProtectedData
+import DryocVerif.Proofs.ProtectedRecord
+import DryocVerif.Proofs.ProtectedLockCount
 import DryocVerif.Proofs.GenProtected
 /-
 C14 — protected memory: page coverage of the protection calls, the state invariant of the
@@ -10,7 +13,10 @@ histories, and restoration of every page once all handles are dropped.
 Everything is for a symbolic page size `c.P > 0` (the only hypothesis besides the ones named
 in the statements).  Helper lemmas live in `DryocVerif/Proofs/Protected*.lean`.
 
-`Inv c s` (definition in `Proofs/ProtectedInv.lean`, unpacked by `inv_region`, `inv_plain`,
+`Inv c s` (definition in `Proofs/ProtectedInv.lean`) has two parts.  The RECORD part `Inv.rcd : RecOK s`: the
+runtime record `d.lm` / `d.pm` of every live `Protected` region (`Obj.rcd`, a field SEPARATE from the type-level
+state `Obj.st`; every transition writes it after its system call, `Drop` / `Zeroize` read it) equals the region's
+type-level state.  The PAGE part `Inv.k : InvK c s` (unpacked by `inv_region`, `inv_plain`,
 `inv_guards` (guard pages of any slot owning a block, length 0 included), `inv_disjoint`,
 `inv_unowned` below) says, for the kernel `s.m.k` and the live slots of `s`:
   * blocks lie inside `[startPage, brk)`, pages `≥ brk` are untouched (`rw`, unlocked);
@@ -28,6 +34,18 @@ pages but leaves them marked locked, the error path drops the region with `lm = 
 nobody unlocks them (observed on the real harness before the repair: sample line 1 ended with
 `lck=4`).  See `lock_noaccess_leaks` and, for the leaky variant, `drop_restores_leaky`.
 
+THE TOKEN `zeroize` IS EXCLUDED from `inv_step` / `inv_reachable` (hypotheses `¬ ZeroizesProtected s t` /
+`NoProtZeroize c s toks`), and from everything derived from them (`tight_reachable`, `drop_restores`,
+`…_reachable`).  Reason (observation of DESIGN §12): `Zeroize::zeroize(&mut self)` is a safe, public method offered
+in EVERY type state; it runs the body of `Drop` — pages read-write, bytes zeroed, pages unlocked — WITHOUT consuming
+the value, without changing its type and without writing its record.  On a non-empty region that is `Locked`
+and/or not `ReadWrite` the pages therefore stop being what the TYPE says, which is exactly what the page part of
+`Inv` asserts: the invariant is really lost (`zeroize_preserves_inv_iff` gives the exact condition,
+`C20.zeroize_breaks_marker` a concrete instance), not just unprovable.  On bare containers, `Unlocked` read-write
+regions (the only slots the harness issues the token on; there it is `fill:00`: `zeroize_eq_fill_zero`) and empty
+regions it is harmless, and such histories satisfy `NoProtZeroize`.  The record part never needs the exclusion
+(`rec_tracks_type`).
+
 Beyond the invariant itself:
   (d) the rights are ENFORCED: in every state satisfying `Inv` the outcome of a read / write at any
       byte of a region, and of a read at either guard page, is determined by the region's type state
@@ -37,16 +55,28 @@ Beyond the invariant itself:
       (`aft_guard_within_page`, `alloc_guards`);
   (f) contents: unchanged by transitions (`transition_keeps_content`), copied by `clone`
       (`clone_keeps_data`), prefix-preserved and zero-filled by `resize` (`resize_keeps_prefix`);
-  (g) a step touches no page of a slot it leaves alone (`others_untouched`).
+  (g) a step touches no page of a slot it leaves alone (`others_untouched`);
+  (h) the runtime record: it tracks the type in every reachable state (`rec_tracks_type`); `Drop` follows the
+      order of the Rust — `mprotect_readwrite`, wipe, `munlock`, `deallocate` — so the bytes are wiped while the
+      pages are writable and still locked (`drop_order`, `drop_wipes_writable`, `drop_wipes_while_locked`); a
+      transition that changes pages and type but FORGETS the record makes the next `drop` wipe read-only pages or
+      leave pages locked (`forgetful_protect_faults_on_drop`, `forgetful_lock_leaks_on_drop`,
+      `forgetful_lock_breaks_drop_restores`);
+  (i) the token `zeroize` (`zeroize_eq_fill_zero`, `zeroize_preserves_inv_iff`), and the tokens `clonefrom`,
+      `panicdrop`, `stacklock`, `serde` (covered by `inv_step`, `tight_step`; witnesses at the end).
 -/
 namespace DryocVerif.Properties.C14
 open DryocVerif DryocVerif.Model.Protected DryocVerif.Proofs.Protected
 
 /-! ### (a) the pages a protection call covers -/
 
-/-- For every `len > 0` the call `mprotect ptr len` changes exactly the pages
+/-- THE ASSUMED KERNEL ROUNDING, unfolded (this is a statement about the model's `mprotect`, i.e. about how the
+abstract kernel is ASSUMED to round a byte range to pages — as `mprotect(2)` does for a page-aligned `addr` —, not
+about the crate's code): for every `len > 0` the call `mprotect ptr len` changes exactly the pages
 `ptr/P … (ptr+len-1)/P`, i.e. the pages that hold data bytes (stated for every `ptr`; the
-allocator only produces page-aligned ones), and nothing else in the kernel. -/
+allocator only produces page-aligned ones), and nothing else in the kernel.  The CODE-level statements — the
+calls the crate's transitions make do cover every data byte of the region — are `ro_call_covers_data`,
+`rw_call_covers_data`, `na_call_covers_data` below (and `translated_syscall_lengths` for the lengths passed). -/
 theorem pages_covered {P : Nat} (hP : 0 < P) (k : Kernel) (ptr len : Nat) (p : Perm)
     (hlen : 0 < len) (i : Nat) :
     (mprotect P k ptr len p).perm i =
@@ -61,6 +91,61 @@ theorem pages_covered {P : Nat} (hP : 0 < P) (k : Kernel) (ptr len : Nat) (p : P
   by_cases hc : ptr / P ≤ i ∧ i < pageEnd P ptr len
   · rw [if_pos hc, if_pos (h.mp ⟨h0, hc⟩)]
   · rw [if_neg hc, if_neg (fun hh => hc (h.mpr hh).2)]
+
+/-- the protection call of the transition tokens covers the data: after `ro` / `rw` on a live `Protected` region
+(any state, no invariant needed) the page of EVERY data byte `ptr + off`, `off < len`, has the new permission -/
+theorem protect_call_covers_data (c : Cfg) (hP : 0 < c.P) (s : State) (i : Nat) (sl : Slot)
+    (hi : s.slots[i]? = some sl) (hg : sl.gone = false) (lm : LM) (pm0 : PM) (hst : sl.o.st = .prot lm pm0)
+    (pm : PM) (off : Nat) (hoff : off < sl.o.v.len) :
+    (opProtect c (resetRel s) i pm).2.m.k.perm ((ptr c sl.o.v + off) / c.P) = pm.perm := by
+  have hi' : (resetRel s).slots[i]? = some sl := hi
+  unfold opProtect
+  rw [withLive_eq hi' hg, hst]
+  simp only [setSlot, dryocMprotect]
+  rw [ptr_eq, mprotect_perm hP, div_aligned_add hP]
+  have := off_div_lt hP hoff
+  have := Nat.zero_le (off / c.P)
+  rw [if_pos ⟨by omega, by omega⟩]
+
+/-- **`ro_call_covers_data`**: after the token `ro` on a live `Protected` region every data byte lies on a
+read-only page -/
+theorem ro_call_covers_data (c : Cfg) (hP : 0 < c.P) (s : State) (i : Nat) (sl : Slot)
+    (hi : s.slots[i]? = some sl) (hg : sl.gone = false) (lm : LM) (pm0 : PM) (hst : sl.o.st = .prot lm pm0)
+    (off : Nat) (hoff : off < sl.o.v.len) :
+    (step c s ⟨.ro, i⟩).2.m.k.perm ((ptr c sl.o.v + off) / c.P) = .r :=
+  protect_call_covers_data c hP s i sl hi hg lm pm0 hst .ro off hoff
+
+/-- **`rw_call_covers_data`**: after `rw` every data byte lies on a read-write page -/
+theorem rw_call_covers_data (c : Cfg) (hP : 0 < c.P) (s : State) (i : Nat) (sl : Slot)
+    (hi : s.slots[i]? = some sl) (hg : sl.gone = false) (lm : LM) (pm0 : PM) (hst : sl.o.st = .prot lm pm0)
+    (off : Nat) (hoff : off < sl.o.v.len) :
+    (step c s ⟨.rw, i⟩).2.m.k.perm ((ptr c sl.o.v + off) / c.P) = .rw :=
+  protect_call_covers_data c hP s i sl hi hg lm pm0 hst .rw off hoff
+
+/-- **`na_call_covers_data`**: after `na` (unlocked regions only) every data byte lies on a `PROT_NONE` page -/
+theorem na_call_covers_data (c : Cfg) (hP : 0 < c.P) (s : State) (i : Nat) (sl : Slot)
+    (hi : s.slots[i]? = some sl) (hg : sl.gone = false) (pm0 : PM) (hst : sl.o.st = .prot .unlocked pm0)
+    (off : Nat) (hoff : off < sl.o.v.len) :
+    (step c s ⟨.na, i⟩).2.m.k.perm ((ptr c sl.o.v + off) / c.P) = .none := by
+  have hi' : (resetRel s).slots[i]? = some sl := hi
+  show (opNa c (resetRel s) i).2.m.k.perm _ = _
+  unfold opNa
+  rw [withLive_eq hi' hg, hst]
+  simp only [setSlot, dryocMprotect]
+  rw [ptr_eq, mprotect_perm hP, div_aligned_add hP]
+  have := off_div_lt hP hoff
+  have := Nat.zero_le (off / c.P)
+  rw [if_pos ⟨by omega, by omega⟩]
+
+/-- non-vacuity witness (`ro_call_covers_data`, `na_call_covers_data`): a live `Unlocked` read-write region of 4097
+bytes (two data pages); byte 4096 is on page 3 -/
+example :
+    let c : Cfg := { P := 4096, isArr := false, n := 4097 }
+    let s := runState c (State.init fun _ => true) [⟨.new, 0⟩, ⟨.lock, 0⟩, ⟨.unlock, 0⟩]
+    (∃ sl, s.slots[0]? = some sl ∧ sl.gone = false ∧ sl.o.st = .prot .unlocked .rw ∧ 4096 < sl.o.v.len ∧
+      (ptr c sl.o.v + 4096) / c.P = 3) ∧
+    (step c s ⟨.ro, 0⟩).2.m.k.perm 3 = .r ∧ (step c s ⟨.na, 0⟩).2.m.k.perm 3 = .none := by
+  refine ⟨⟨_, rfl, ?_⟩, ?_⟩ <;> decide
 
 /-- for a page-aligned region the covered pages are the `⌈len/P⌉` pages from `ptr/P` on -/
 theorem pages_covered_aligned {P : Nat} (hP : 0 < P) (k : Kernel) (a len : Nat) (p : Perm) (i : Nat) :
@@ -94,18 +179,45 @@ theorem inv_init (c : Cfg) (oracle : Nat → Bool) : Inv c (State.init oracle) :
   Proofs.Protected.inv_init c oracle
 
 /-- every token preserves the invariant — whatever the lock oracle answers, `panic` and `err`
-outcomes included -/
-theorem inv_step (c : Cfg) (hP : 0 < c.P) (s : State) (t : Tok) (h : Inv c s) : Inv c (step c s t).2 :=
-  Proofs.Protected.inv_step hP h t
+outcomes included — EXCEPT a `zeroize` of a live, non-empty `Protected` region that is not `Unlocked` read-write
+(`ZeroizesProtected s t`; see `zeroize_preserves_inv_iff` for the exact characterisation).
+STATEMENT CHANGED (the model now has the token `zeroize` with its real effect and the tokens `clonefrom`,
+`panicdrop`, `stacklock`, `serde`): new hypothesis `hz`; `Inv` now also contains the record part `RecOK`. -/
+theorem inv_step (c : Cfg) (hP : 0 < c.P) (s : State) (t : Tok) (h : Inv c s)
+    (hz : ¬ ZeroizesProtected s t) : Inv c (step c s t).2 :=
+  Proofs.Protected.inv_step hP h t hz
 
-theorem inv_reachable (c : Cfg) (hP : 0 < c.P) (oracle : Nat → Bool) (toks : List Tok) :
+/-- STATEMENT CHANGED: new hypothesis `hz` — no token of the history is a `zeroize` of a live, non-empty
+`Protected` region other than `Unlocked` read-write (decidable on concrete histories; implied by "no `zeroize`
+token at all", `noProtZeroize_of_no_zeroize`, and by what the harness does: it issues `zeroize` on plain /
+unlocked read-write slots only). -/
+theorem inv_reachable (c : Cfg) (hP : 0 < c.P) (oracle : Nat → Bool) (toks : List Tok)
+    (hz : NoProtZeroize c (State.init oracle) toks) :
     Inv c (runState c (State.init oracle) toks) :=
-  inv_runState hP toks (inv_init c oracle)
+  inv_runState hP toks (inv_init c oracle) hz
 
-/-- … and so does every intermediate state the harness prints -/
-theorem inv_reachable_all (c : Cfg) (hP : 0 < c.P) (oracle : Nat → Bool) (toks : List Tok) :
+/-- … and so does every intermediate state the harness prints (STATEMENT CHANGED: hypothesis `hz`) -/
+theorem inv_reachable_all (c : Cfg) (hP : 0 < c.P) (oracle : Nat → Bool) (toks : List Tok)
+    (hz : NoProtZeroize c (State.init oracle) toks) :
     ∀ r ∈ run c (State.init oracle) toks, Inv c r.2 :=
-  inv_run hP toks (inv_init c oracle)
+  inv_run hP toks (inv_init c oracle) hz
+
+/-- `inv_reachable` for the histories without any `zeroize` token -/
+theorem inv_reachable_no_zeroize (c : Cfg) (hP : 0 < c.P) (oracle : Nat → Bool) (toks : List Tok)
+    (hz : ∀ t ∈ toks, t.op ≠ .zeroize) : Inv c (runState c (State.init oracle) toks) :=
+  inv_reachable c hP oracle toks (noProtZeroize_of_no_zeroize c toks _ hz)
+
+/-- **the runtime record tracks the type** (item "recorded runtime state"): in every reachable state — ANY
+history, `zeroize` tokens included, any oracle — the record `d.lm` / `d.pm` of every live `Protected` region
+(the data `Drop` / `Zeroize` consult) equals its type-level state. -/
+theorem rec_tracks_type (c : Cfg) (oracle : Nat → Bool) (toks : List Tok) :
+    ∀ sl ∈ (runState c (State.init oracle) toks).slots, sl.gone = false →
+      ∀ lm pm, sl.o.st = .prot lm pm → sl.o.rcd = (lm, pm) :=
+  rec_runState toks (rec_init oracle)
+
+/-- one step of it, from any state -/
+theorem rec_step (c : Cfg) (s : State) (t : Tok) (h : RecOK s) : RecOK (step c s t).2 :=
+  Proofs.Protected.rec_step h t
 
 /-- What `Inv` says about a live, non-empty `Protected` region in state `(lm, pm)`, in byte
 addresses: every page holding data has exactly the permission of `pm` and is locked iff
@@ -218,12 +330,12 @@ theorem transition_keeps_content (c : Cfg) (s : State) (t : Tok)
   rcases ht with h | h | h | h | h <;> simp only [h]
   · unfold opLock
     apply key; intro sl l1 l2 hs hi; rw [← hi]
-    have hd : ∀ pm, (doLock c (resetRel s) l1.length sl pm).2.slots.map (fun sl => sl.o.v) =
+    have hd : ∀ rc pm, (doLock c (resetRel s) l1.length sl rc pm).2.slots.map (fun sl => sl.o.v) =
         s.slots.map (fun sl => sl.o.v) := by
-      intro pm; unfold doLock; simp only []; split <;> exact hset _ _ _ _ _ hs rfl
+      intro rc pm; unfold doLock; simp only []; split <;> exact hset _ _ _ _ _ hs rfl
     split
-    · exact hd _
-    · exact hd _
+    · exact hd _ _
+    · exact hd _ _
     · rfl
   · unfold opUnlock
     apply key; intro sl l1 l2 hs hi; rw [← hi]
@@ -253,14 +365,14 @@ whatever the oracle did) every page has its original rights. -/
 theorem drop_restores_perms (c : Cfg) (hP : 0 < c.P) (s : State) (h : Inv c s) (p : Nat) :
     (finish c s).m.k.perm p = .rw := by
   have g : GoodL c.P (dropAllM c { s.m with rel := [] } s.slots).k [] :=
-    good_dropAll hP s.slots (m := { s.m with rel := [] }) h
+    good_dropAll hP s.slots (m := { s.m with rel := [] }) h.k
   exact g.outside p (fun _ hb => by simp at hb)
 
 /-- … and no page is locked, provided no stray lock existed before (`Tight`). -/
 theorem drop_restores_locks (c : Cfg) (hP : 0 < c.P) (s : State) (h : Inv c s) (ht : Tight c s) (p : Nat) :
     (finish c s).m.k.locked p = false := by
   have g : TightL c.P (dropAllM c { s.m with rel := [] } s.slots).k [] :=
-    tight_dropAll hP s.slots (m := { s.m with rel := [] }) h ht
+    tight_dropAll hP s.slots (m := { s.m with rel := [] }) h.k ht h.rcd
   exact g p (fun _ hb => by simp at hb)
 
 /-- `Tight` is kept by every token of the repaired model; in the leaky variant by every token that
@@ -269,18 +381,21 @@ theorem tight_step (c : Cfg) (hP : 0 < c.P) (s : State) (t : Tok) (h : Inv c s) 
     (hno : c.undo = true ∨ ¬ LocksNoAccess s t) : Tight c (step c s t).2 :=
   Proofs.Protected.tight_step hP h ht t hno
 
+/-- STATEMENT CHANGED: hypothesis `hz` (see `inv_reachable`) -/
 theorem tight_reachable (c : Cfg) (hP : 0 < c.P) (hu : c.undo = true) (oracle : Nat → Bool)
-    (toks : List Tok) : Tight c (runState c (State.init oracle) toks) :=
-  tight_runState hP toks (inv_init c oracle) (tight_init c oracle) (Or.inl hu)
+    (toks : List Tok) (hz : NoProtZeroize c (State.init oracle) toks) :
+    Tight c (runState c (State.init oracle) toks) :=
+  tight_runState hP toks (inv_init c oracle) (tight_init c oracle) hz (Or.inl hu)
 
 theorem drop_restores_aux (c : Cfg) (hP : 0 < c.P) (oracle : Nat → Bool) (toks : List Tok)
+    (hz : NoProtZeroize c (State.init oracle) toks)
     (hno : c.undo = true ∨ NoNALock c (State.init oracle) toks) :
     let e := finish c (runState c (State.init oracle) toks)
     (∀ p, e.m.k.perm p = Kernel.init.perm p ∧ e.m.k.locked p = Kernel.init.locked p) ∧
     lockedPages e.m.k = 0 := by
   intro e
-  have hi := inv_reachable c hP oracle toks
-  have ht := tight_runState hP toks (inv_init c oracle) (tight_init c oracle) hno
+  have hi := inv_reachable c hP oracle toks hz
+  have ht := tight_runState hP toks (inv_init c oracle) (tight_init c oracle) hz hno
   have hl := drop_restores_locks c hP _ hi ht
   refine ⟨fun p => ⟨drop_restores_perms c hP _ hi p, hl p⟩, ?_⟩
   unfold lockedPages
@@ -298,26 +413,58 @@ the model (`dryocMunlock`, `dryocMprotect` return no status; `opUnlock`, `opProt
 answer `ok`; `alloc` assumes its three `mprotect` calls, whose results the Rust swallows with
 `.ok()`, took effect), whereas the Rust has `dryoc_munlock(..)?` / `dryoc_mprotect_*(..)?` inside
 `swap_some_or_err`, and `Drop` only prints such an error.  A history in which `munlock(2)` or
-`mprotect(2)` fails is therefore NOT REPRESENTABLE, and this theorem says nothing about it. -/
+`mprotect(2)` fails is therefore NOT REPRESENTABLE, and this theorem says nothing about it.
+
+STATEMENT CHANGED: hypothesis `hz` (no `zeroize` of a non-empty `Protected` region other than `Unlocked`
+read-write along the history; see `inv_reachable`).  The drop consults the RECORD of each region
+(`rec_tracks_type` is what makes that the right thing to consult; `forgetful_lock_leaks` is what happens if a
+transition does not write it). -/
 theorem drop_restores (c : Cfg) (hP : 0 < c.P) (hu : c.undo = true) (oracle : Nat → Bool)
-    (toks : List Tok) :
+    (toks : List Tok) (hz : NoProtZeroize c (State.init oracle) toks) :
     let e := finish c (runState c (State.init oracle) toks)
     (∀ p, e.m.k.perm p = Kernel.init.perm p ∧ e.m.k.locked p = Kernel.init.locked p) ∧
     lockedPages e.m.k = 0 :=
-  drop_restores_aux c hP oracle toks (Or.inl hu)
+  drop_restores_aux c hP oracle toks hz (Or.inl hu)
 
 /-- the leaky variant needs the side condition: no `lock` on a non-empty `NoAccess` region -/
 theorem drop_restores_leaky (c : Cfg) (hP : 0 < c.P) (oracle : Nat → Bool) (toks : List Tok)
-    (hno : NoNALock c (State.init oracle) toks) :
+    (hz : NoProtZeroize c (State.init oracle) toks) (hno : NoNALock c (State.init oracle) toks) :
     let e := finish c (runState c (State.init oracle) toks)
     (∀ p, e.m.k.perm p = Kernel.init.perm p ∧ e.m.k.locked p = Kernel.init.locked p) ∧
     lockedPages e.m.k = 0 :=
-  drop_restores_aux c hP oracle toks (Or.inr hno)
+  drop_restores_aux c hP oracle toks hz (Or.inr hno)
 
 /-- the rights are restored in both variants (only the lock flag could leak) -/
-theorem drop_restores_perms_always (c : Cfg) (hP : 0 < c.P) (oracle : Nat → Bool) (toks : List Tok) (p : Nat) :
+theorem drop_restores_perms_always (c : Cfg) (hP : 0 < c.P) (oracle : Nat → Bool) (toks : List Tok)
+    (hz : NoProtZeroize c (State.init oracle) toks) (p : Nat) :
     (finish c (runState c (State.init oracle) toks)).m.k.perm p = .rw :=
-  drop_restores_perms c hP _ (inv_reachable c hP oracle toks) p
+  drop_restores_perms c hP _ (inv_reachable c hP oracle toks hz) p
+
+/-- **`lockedPages_eq`**: in a state satisfying `Inv` and `Tight` the number of locked pages (the harness' `lck=`,
+in pages) is the sum, over the live `Locked` slots, of their numbers of data pages `⌈len / P⌉` — no more (no
+stray lock, no locked guard or spare page) and no fewer -/
+theorem lockedPages_eq (c : Cfg) (hP : 0 < c.P) (s : State) (h : Inv c s) (ht : Tight c s) :
+    lockedPages s.m.k =
+      ((s.slots.filter fun sl => !sl.gone && isLockedSt sl.o.st).map fun sl => pagesOf c.P sl.o.v.len).sum := by
+  rw [lockedPages_eq_slots hP h ht, lockedSlotPages_filter]
+
+/-- … in every reachable state of the repaired model -/
+theorem lockedPages_eq_reachable (c : Cfg) (hP : 0 < c.P) (hu : c.undo = true) (oracle : Nat → Bool)
+    (toks : List Tok) (hz : NoProtZeroize c (State.init oracle) toks) :
+    lockedPages (runState c (State.init oracle) toks).m.k =
+      (((runState c (State.init oracle) toks).slots.filter fun sl => !sl.gone && isLockedSt sl.o.st).map
+        fun sl => pagesOf c.P sl.o.v.len).sum :=
+  lockedPages_eq c hP _ (inv_reachable c hP oracle toks hz) (tight_reachable c hP hu oracle toks hz)
+
+/-- non-vacuity witness (`lockedPages_eq_reachable`): three live slots — `Locked` 4097 bytes (2 pages), plain,
+`LockedRO` 4097 bytes — and a dropped one: 4 locked pages -/
+example :
+    let c : Cfg := { P := 4096, isArr := false, n := 4097 }
+    let s := runState c (State.init fun _ => true)
+      [⟨.new, 0⟩, ⟨.lock, 0⟩, ⟨.new, 0⟩, ⟨.new, 0⟩, ⟨.lock, 2⟩, ⟨.ro, 2⟩, ⟨.newlocked, 0⟩, ⟨.drop, 3⟩]
+    lockedPages s.m.k = 4 ∧
+    ((s.slots.filter fun sl => !sl.gone && isLockedSt sl.o.st).map fun sl => pagesOf c.P sl.o.v.len) = [2, 2] := by
+  decide
 
 /-! ### the repaired defect: `lock` on a non-empty `NoAccess` region -/
 
@@ -391,7 +538,7 @@ theorem probe_outcomes (c : Cfg) (hP : 0 < c.P) (s : State) (h : Inv c s) (i : N
     (hi : s.slots[i]? = some sl) (hg : sl.gone = false) (off : Nat) (hoff : off < sl.o.v.len) :
     step c s ⟨.wprobe off, i⟩ = (if stPerm sl.o.st = .rw then .ok else .segv, resetRel s) ∧
     step c s ⟨.rprobe off, i⟩ = (if stPerm sl.o.st = .none then .segv else .ok, resetRel s) :=
-  ⟨opWProbe_eq hP (s := resetRel s) h hi hg hoff, opRProbe_eq hP (s := resetRel s) h hi hg hoff⟩
+  ⟨opWProbe_eq hP (s := resetRel s) h.resetRel hi hg hoff, opRProbe_eq hP (s := resetRel s) h.resetRel hi hg hoff⟩
 
 /-- a write to ANY byte of a read-only region (locked or not) faults -/
 theorem ro_write_faults (c : Cfg) (hP : 0 < c.P) (s : State) (h : Inv c s) (i : Nat) (sl : Slot)
@@ -432,8 +579,8 @@ theorem guard_probes_fault (c : Cfg) (hP : 0 < c.P) (s : State) (h : Inv c s) (i
     (step c s ⟨.gprobe true, i⟩).1 = .segv ∧
     (sl.o.v.cap / c.P + 1 < pagesOf c.P sl.o.v.len + 40 → (step c s ⟨.gprobe false, i⟩).1 = .segv) := by
   refine ⟨?_, fun hsp => ?_⟩
-  · rw [step_gprobe, opGProbe_fore (s := resetRel s) h hi hg hl]
-  · rw [step_gprobe, opGProbe_aft hP (s := resetRel s) h hi hg hl hsp]
+  · rw [step_gprobe, opGProbe_fore (s := resetRel s) h.resetRel hi hg hl]
+  · rw [step_gprobe, opGProbe_aft hP (s := resetRel s) h.resetRel hi hg hl hsp]
 
 /-- a region whose allocation is as long as its data (never shrunk: every constructor, `clone`, and
 every fixed-length array) always has both guards within reach -/
@@ -482,35 +629,39 @@ example :
 /-! the same along arbitrary histories -/
 
 theorem ro_write_faults_reachable (c : Cfg) (hP : 0 < c.P) (oracle : Nat → Bool) (toks : List Tok)
+    (hz : NoProtZeroize c (State.init oracle) toks)
     (i : Nat) (sl : Slot) (hi : (runState c (State.init oracle) toks).slots[i]? = some sl)
     (hg : sl.gone = false) (lm : LM) (hst : sl.o.st = .prot lm .ro) (off : Nat) (hoff : off < sl.o.v.len) :
     (step c (runState c (State.init oracle) toks) ⟨.wprobe off, i⟩).1 = .segv ∧
     (step c (runState c (State.init oracle) toks) ⟨.rprobe off, i⟩).1 = .ok :=
-  ⟨ro_write_faults c hP _ (inv_reachable c hP oracle toks) i sl hi hg lm hst off hoff,
-   ro_read_ok c hP _ (inv_reachable c hP oracle toks) i sl hi hg lm hst off hoff⟩
+  ⟨ro_write_faults c hP _ (inv_reachable c hP oracle toks hz) i sl hi hg lm hst off hoff,
+   ro_read_ok c hP _ (inv_reachable c hP oracle toks hz) i sl hi hg lm hst off hoff⟩
 
 theorem na_any_access_faults_reachable (c : Cfg) (hP : 0 < c.P) (oracle : Nat → Bool) (toks : List Tok)
+    (hz : NoProtZeroize c (State.init oracle) toks)
     (i : Nat) (sl : Slot) (hi : (runState c (State.init oracle) toks).slots[i]? = some sl)
     (hg : sl.gone = false) (lm : LM) (hst : sl.o.st = .prot lm .na) (off : Nat) (hoff : off < sl.o.v.len) :
     (step c (runState c (State.init oracle) toks) ⟨.rprobe off, i⟩).1 = .segv ∧
     (step c (runState c (State.init oracle) toks) ⟨.wprobe off, i⟩).1 = .segv :=
-  na_any_access_faults c hP _ (inv_reachable c hP oracle toks) i sl hi hg lm hst off hoff
+  na_any_access_faults c hP _ (inv_reachable c hP oracle toks hz) i sl hi hg lm hst off hoff
 
 theorem rw_access_ok_reachable (c : Cfg) (hP : 0 < c.P) (oracle : Nat → Bool) (toks : List Tok)
+    (hz : NoProtZeroize c (State.init oracle) toks)
     (i : Nat) (sl : Slot) (hi : (runState c (State.init oracle) toks).slots[i]? = some sl)
     (hg : sl.gone = false) (hst : sl.o.st = .plain ∨ ∃ lm, sl.o.st = .prot lm .rw)
     (off : Nat) (hoff : off < sl.o.v.len) :
     (step c (runState c (State.init oracle) toks) ⟨.rprobe off, i⟩).1 = .ok ∧
     (step c (runState c (State.init oracle) toks) ⟨.wprobe off, i⟩).1 = .ok :=
-  rw_access_ok c hP _ (inv_reachable c hP oracle toks) i sl hi hg hst off hoff
+  rw_access_ok c hP _ (inv_reachable c hP oracle toks hz) i sl hi hg hst off hoff
 
 theorem guard_probes_fault_reachable (c : Cfg) (hP : 0 < c.P) (oracle : Nat → Bool) (toks : List Tok)
+    (hz : NoProtZeroize c (State.init oracle) toks)
     (i : Nat) (sl : Slot) (hi : (runState c (State.init oracle) toks).slots[i]? = some sl)
     (hg : sl.gone = false) (hl : 0 < sl.o.v.len) :
     (step c (runState c (State.init oracle) toks) ⟨.gprobe true, i⟩).1 = .segv ∧
     (sl.o.v.cap / c.P + 1 < pagesOf c.P sl.o.v.len + 40 →
       (step c (runState c (State.init oracle) toks) ⟨.gprobe false, i⟩).1 = .segv) :=
-  guard_probes_fault c hP _ (inv_reachable c hP oracle toks) i sl hi hg hl
+  guard_probes_fault c hP _ (inv_reachable c hP oracle toks hz) i sl hi hg hl
 
 /-! ### (e) the trailing guard page is no more than one page beyond the end of the allocation -/
 
@@ -566,11 +717,21 @@ theorem vec_resize_prefix (c : Cfg) (m : Mach) (v : PVec) (n : Nat) (hl : v.len 
     (vecResize c m v n).2.len = n ∧ (vecResize c m v n).2.data = v.data.take n ++ zeros (n - v.len) :=
   ⟨vecResize_len c m v n, vecResize_data c m v n hl hb⟩
 
+/-- `Vec::resize(n, b)` with an arbitrary fill byte `b`: the first `min old new` bytes are kept, the new bytes are
+`b` — whether the vector shrinks, grows in place or reallocates (`vec_resize_prefix` is the case `b = 0`, the only
+one the crate itself uses) -/
+theorem vec_resize_prefix_fill (c : Cfg) (m : Mach) (v : PVec) (n : Nat) (b : UInt8) (hl : v.len ≤ v.cap)
+    (hb : v.buf.length = v.cap) :
+    (vecResize c m v n b).2.len = n ∧
+    (vecResize c m v n b).2.data = v.data.take n ++ List.replicate (n - v.len) b :=
+  ⟨vecResize_len c m v n b, vecResize_data_fill c m v n b hl hb⟩
+
 /-- `ResizableBytes::resize` of a `Locked` region (allocate, lock, copy, drop the old one): when it
-succeeds the same prefix law holds -/
-theorem locked_resize_prefix (c : Cfg) (m : Mach) (v nv : PVec) (n : Nat) (hl : v.len ≤ v.buf.length)
-    (h : (lockedResize c m v n).2 = some nv) :
-    nv.len = n ∧ nv.data = v.data.take n ++ zeros (n - v.len) :=
+succeeds the same prefix law holds.  STATEMENT GENERALISED: the record `rc` of the region and the fill byte `b`
+are parameters now (`b = 0`: `List.replicate k 0 = zeros k`). -/
+theorem locked_resize_prefix (c : Cfg) (m : Mach) (v nv : PVec) (rc : LM × PM) (n : Nat) (b : UInt8)
+    (hl : v.len ≤ v.buf.length) (h : (lockedResize c m v rc n b).2 = some nv) :
+    nv.len = n ∧ nv.data = v.data.take n ++ List.replicate (n - v.len) b :=
   ⟨(lockedResize_some hl h).1, (lockedResize_some hl h).2.2⟩
 
 /-- the `clone` token, in every type state that has a `Clone` impl: when it answers `ok` exactly one
@@ -580,7 +741,7 @@ theorem clone_keeps_data (c : Cfg) (s : State) (h : Inv c s) (i : Nat) (sl : Slo
     (hi : s.slots[i]? = some sl) (hg : sl.gone = false) (hok : (step c s ⟨.clone, i⟩).1 = .ok) :
     ∃ nsl : Slot, (step c s ⟨.clone, i⟩).2.slots = s.slots ++ [nsl] ∧ nsl.gone = false ∧
       nsl.o.st = sl.o.st ∧ nsl.o.v.len = sl.o.v.len ∧ nsl.o.v.data = sl.o.v.data :=
-  opClone_ok (s := resetRel s) h hi hg hok
+  opClone_ok (s := resetRel s) h.resetRel hi hg hok
 
 /-- the `resize:n` token (Plain, Unlocked and Locked read-write regions): when it answers `ok` the
 slot keeps its type state, has length `n`, its first `min old n` bytes are the old ones and the
@@ -591,7 +752,31 @@ theorem resize_keeps_prefix (c : Cfg) (s : State) (h : Inv c s) (i : Nat) (sl : 
     ∃ nsl : Slot, (step c s ⟨.resize n, i⟩).2.slots = s.slots.set i nsl ∧ nsl.gone = false ∧
       nsl.o.st = sl.o.st ∧ nsl.o.v.len = n ∧
       nsl.o.v.data = sl.o.v.data.take n ++ zeros (n - sl.o.v.len) :=
-  opResize_ok (s := resetRel s) h hi hg hok
+  opResize_ok (s := resetRel s) (b := 0) h.resetRel hi hg hok
+
+/-- the same for `resize:n:hh` (`ResizableBytes::resize(n, b)` with a fill byte `b`; model-only spelling, the
+harness always passes 0): the new bytes are `b` -/
+theorem resize_keeps_prefix_fill (c : Cfg) (s : State) (h : Inv c s) (i : Nat) (sl : Slot)
+    (hi : s.slots[i]? = some sl) (hg : sl.gone = false) (n : Nat) (b : UInt8)
+    (hok : (step c s ⟨.resize n b, i⟩).1 = .ok) :
+    ∃ nsl : Slot, (step c s ⟨.resize n b, i⟩).2.slots = s.slots.set i nsl ∧ nsl.gone = false ∧
+      nsl.o.st = sl.o.st ∧ nsl.o.v.len = n ∧
+      nsl.o.v.data = sl.o.v.data.take n ++ List.replicate (n - sl.o.v.len) b :=
+  opResize_ok (s := resetRel s) h.resetRel hi hg hok
+
+/-- non-vacuity witness (`resize_keeps_prefix_fill`): growing a plain container, an `Unlocked` and a `Locked`
+region with fill byte `0xee`, in place and by reallocation -/
+example :
+    let c : Cfg := { c1 with n := 2 }
+    let r := run c (State.init fun _ => true)
+      [⟨.new, 0⟩, ⟨.fill 0xa5, 0⟩, ⟨.resize 4 0xee, 0⟩, ⟨.resize 9 0x11, 0⟩, ⟨.lock, 0⟩, ⟨.resize 3, 0⟩,
+       ⟨.resize 5 0xee, 0⟩]
+    r.map (·.1) = [.ok, .ok, .ok, .ok, .ok, .ok, .ok] ∧
+    (r.map fun x => x.2.slots.map fun sl => sl.o.v.data).getLast? =
+      some [[0xa5, 0xa5, 0xee, 0xee, 0xee]] ∧
+    ((r.map fun x => x.2.slots.map fun sl => sl.o.v.data)[3]?) =
+      some [[0xa5, 0xa5, 0xee, 0xee, 0x11, 0x11, 0x11, 0x11, 0x11]] := by
+  decide
 
 /-- non-vacuity witness (`clone_keeps_data`, `resize_keeps_prefix`): a locked region filled with
 `a5` is cloned, the clone grown beyond its capacity (resize-by-copy) and then shrunk -/
@@ -617,6 +802,207 @@ theorem others_untouched (c : Cfg) (s s' : State) (h : Inv c s) (h' : Inv c s') 
     (p : Nat) (hp : inBlock c.P sl.o.v p) :
     s'.m.k.perm p = s.m.k.perm p ∧ s'.m.k.locked p = s.m.k.locked p :=
   Proofs.Protected.others_untouched h h' hj hj' hg hp
+
+/-! ### (h) the runtime record `d.lm` / `d.pm` -/
+
+/-- the order of `Drop for Protected` (= `self.zeroize()`, then the drop of the container), as in the Rust:
+`mprotect_readwrite` unless the RECORD says `ReadWrite` (`protAtWipe`), wipe the bytes, `munlock` if the RECORD says
+`Locked`, then `plainDrop` (`deallocate` wipes the whole capacity, restores the guard pages, frees) -/
+theorem drop_order (c : Cfg) (m : Mach) (v : PVec) (lm : LM) (pm : PM) :
+    protDrop c m v lm pm =
+      plainDrop c (if lm = .locked then dryocMunlock c (protAtWipe c m v pm) (ptr c v) v.len
+        else protAtWipe c m v pm) (zeroizeV v) :=
+  protDrop_order c m v lm pm
+
+/-- when a live `Protected` region is dropped (or `zeroize`d) in a state satisfying `Inv`, every data page is
+writable at the moment the bytes are wiped (`protAtWipe … rcd.2` = the machine after the conditional
+`mprotect_readwrite`, which consults the RECORD) -/
+theorem drop_wipes_writable (c : Cfg) (hP : 0 < c.P) (s : State) (h : Inv c s) (i : Nat) (sl : Slot)
+    (hi : s.slots[i]? = some sl) (hg : sl.gone = false) (lm : LM) (pm : PM) (hst : sl.o.st = .prot lm pm)
+    (p : Nat) (hp : sl.o.v.base + 1 ≤ p ∧ p < sl.o.v.base + 1 + pagesOf c.P sl.o.v.len) :
+    (protAtWipe c s.m sl.o.v sl.o.rcd.2).k.perm p = .rw :=
+  wipe_writable hP h hi hg hst hp
+
+/-- **`drop_wipes_while_locked`**: for a `Locked` region, at the wipe step every data page is still LOCKED and
+writable — the `munlock` comes after the wipe (`drop_order`), so the secret bytes are never in unlocked memory -/
+theorem drop_wipes_while_locked (c : Cfg) (hP : 0 < c.P) (s : State) (h : Inv c s) (i : Nat) (sl : Slot)
+    (hi : s.slots[i]? = some sl) (hg : sl.gone = false) (pm : PM) (hst : sl.o.st = .prot .locked pm)
+    (p : Nat) (hp : sl.o.v.base + 1 ≤ p ∧ p < sl.o.v.base + 1 + pagesOf c.P sl.o.v.len) :
+    (protAtWipe c s.m sl.o.v sl.o.rcd.2).k.locked p = true ∧
+    (protAtWipe c s.m sl.o.v sl.o.rcd.2).k.perm p = .rw :=
+  wipe_while_locked hP h hi hg hst hp
+
+/-- non-vacuity witness (`drop_wipes_writable`, `drop_wipes_while_locked`): after `new; lock; ro` slot 0 is a live
+`LockedRO` region with record `(Locked, ReadOnly)`; page 2 is its data page: read-only and locked before the drop,
+read-write and still locked at the wipe step, unlocked after `protZeroize` -/
+example :
+    let c : Cfg := { P := 4096, isArr := false, n := 16 }
+    let s := runState c (State.init fun _ => true) [⟨.new, 0⟩, ⟨.lock, 0⟩, ⟨.ro, 0⟩]
+    (∃ sl, s.slots[0]? = some sl ∧ sl.gone = false ∧ sl.o.st = .prot .locked .ro ∧ sl.o.rcd = (.locked, .ro) ∧
+      sl.o.v.base + 1 = 2 ∧ pagesOf c.P sl.o.v.len = 1 ∧
+      (protAtWipe c s.m sl.o.v sl.o.rcd.2).k.perm 2 = .rw ∧ (protAtWipe c s.m sl.o.v sl.o.rcd.2).k.locked 2 = true ∧
+      (protZeroize c s.m sl.o.v sl.o.rcd.1 sl.o.rcd.2).1.k.locked 2 = false) ∧
+    s.m.k.perm 2 = .r ∧ s.m.k.locked 2 = true := by
+  refine ⟨⟨_, rfl, ?_⟩, ?_⟩ <;> decide
+
+/-- **a stale lock record leaks** (any state satisfying the page invariant): if the pages of a live region are
+locked, as its type says, but its record says `Unlocked`, `drop` leaves every data page locked -/
+theorem stale_lock_record_leaks (c : Cfg) (s : State) (h : InvK c s) (i : Nat) (sl : Slot)
+    (hi : s.slots[i]? = some sl) (hg : sl.gone = false) (pm : PM) (hst : sl.o.st = .prot .locked pm)
+    (hstale : sl.o.rcd.1 = .unlocked) (p : Nat)
+    (hp : sl.o.v.base + 1 ≤ p ∧ p < sl.o.v.base + 1 + pagesOf c.P sl.o.v.len) :
+    (objDrop c s.m sl.o).k.locked p = true :=
+  Proofs.Protected.stale_lock_record_leaks h hi hg hst hstale hp
+
+/-- **counter-model: `mprotect_readonly` that forgets `old.pm = ReadOnly`** (`opProtectForgetsRec`: pages and
+type change, the record does not).  From any state satisfying `Inv`, on a live read-write region: afterwards pages
+and type still agree, the record does not (`¬ RecOK`), and the next `drop` wipes pages that are READ-ONLY — in
+the Rust a SIGSEGV inside `Drop`; compare `drop_wipes_writable`. -/
+theorem forgetful_protect_faults_on_drop (c : Cfg) (hP : 0 < c.P) (s : State) (h : Inv c s) (i : Nat) (sl : Slot)
+    (hi : s.slots[i]? = some sl) (hg : sl.gone = false) (lm : LM) (hst : sl.o.st = .prot lm .rw) :
+    ¬ RecOK (opProtectForgetsRec c s i .ro).2 ∧
+    ∃ sl', (opProtectForgetsRec c s i .ro).2.slots[i]? = some sl' ∧ sl'.gone = false ∧
+      ∀ p, sl'.o.v.base + 1 ≤ p ∧ p < sl'.o.v.base + 1 + pagesOf c.P sl'.o.v.len →
+        (protAtWipe c (opProtectForgetsRec c s i .ro).2.m sl'.o.v sl'.o.rcd.2).k.perm p = .r := by
+  obtain ⟨_, _, _, _, _, _, _, hnr⟩ := protectForgetsRec_state hP h hi hg hst
+  exact ⟨hnr, Proofs.Protected.forgetful_protect_faults_on_drop hP h hi hg hst⟩
+
+/-- **counter-model: `mlock()` that forgets `old.lm = Locked`** (`opLockForgetsRec`).  From any state satisfying
+`Inv`, on a live bare container, when the lock is granted: the slot is typed `Locked`, its pages are locked, and
+the next `drop` — which consults the record — skips `munlock`: every data page stays locked after the region is
+gone ("drop of a locked region skips munlock"). -/
+theorem forgetful_lock_leaks_on_drop (c : Cfg) (hP : 0 < c.P) (s : State) (h : Inv c s) (i : Nat) (sl : Slot)
+    (hi : s.slots[i]? = some sl) (hg : sl.gone = false) (hst : sl.o.st = .plain)
+    (hok : (opLockForgetsRec c s i).1 = .ok) :
+    ∃ sl', (opLockForgetsRec c s i).2.slots[i]? = some sl' ∧ sl'.gone = false ∧
+      sl'.o.st = .prot .locked .rw ∧
+      ∀ p, sl'.o.v.base + 1 ≤ p ∧ p < sl'.o.v.base + 1 + pagesOf c.P sl'.o.v.len →
+        (objDrop c (opLockForgetsRec c s i).2.m sl'.o).k.locked p = true :=
+  Proofs.Protected.forgetful_lock_leaks_on_drop hP h hi hg hst hok
+
+/-- … concretely, `drop_restores` FAILS for it: `new`, forgetful `lock`, teardown — one page is locked for ever;
+with the real `lock` none is.  Likewise the forgetful `ro` (after a real `lock`): at the wipe step of the teardown
+page 2 is read-only. -/
+theorem forgetful_lock_breaks_drop_restores :
+    let c : Cfg := { P := 4096, isArr := false, n := 16 }
+    let s1 := runState c (State.init fun _ => true) [⟨.new, 0⟩]
+    (opLockForgetsRec c s1 0).1 = .ok ∧
+    lockedPages (finish c (opLockForgetsRec c s1 0).2).m.k = 1 ∧
+    lockedPages (finish c (step c s1 ⟨.lock, 0⟩).2).m.k = 0 ∧
+    ((opLockForgetsRec c s1 0).2.slots.map fun sl => (sl.o.st, sl.o.rcd)) = [(.prot .locked .rw, (.unlocked, .rw))] ∧
+    ((step c s1 ⟨.lock, 0⟩).2.slots.map fun sl => (sl.o.st, sl.o.rcd)) = [(.prot .locked .rw, (.locked, .rw))] ∧
+    (let s2 := (step c s1 ⟨.lock, 0⟩).2
+     ((opProtectForgetsRec c s2 0 .ro).2.slots.map fun sl =>
+        (sl.o.st, sl.o.rcd, (protAtWipe c (opProtectForgetsRec c s2 0 .ro).2.m sl.o.v sl.o.rcd.2).k.perm 2)) =
+       [(.prot .locked .ro, (.locked, .rw), .r)] ∧
+     ((step c s2 ⟨.ro, 0⟩).2.slots.map fun sl =>
+        (sl.o.st, sl.o.rcd, (protAtWipe c (step c s2 ⟨.ro, 0⟩).2.m sl.o.v sl.o.rcd.2).k.perm 2)) =
+       [(.prot .locked .ro, (.locked, .ro), .rw)]) := by
+  decide
+
+/-! ### (i) the token `zeroize` -/
+
+/-- **`zeroize` = `fill:00` where the harness issues it**: on a live bare container or `Unlocked` read-write region
+whose record tracks its type (every reachable state: `rec_tracks_type`), the tokens `zeroize` and `fill:00` give
+the same answer and the same state -/
+theorem zeroize_eq_fill_zero (c : Cfg) (s : State) (hrec : RecOK s) (i : Nat) (sl : Slot)
+    (hi : s.slots[i]? = some sl) (hg : sl.gone = false)
+    (hst : sl.o.st = .plain ∨ sl.o.st = .prot .unlocked .rw) :
+    step c s ⟨.zeroize, i⟩ = step c s ⟨.fill 0, i⟩ :=
+  Proofs.Protected.zeroize_eq_fill_zero c hrec hi hg hst
+
+/-- … in particular in every reachable state -/
+theorem zeroize_eq_fill_zero_reachable (c : Cfg) (oracle : Nat → Bool) (toks : List Tok) (i : Nat) (sl : Slot)
+    (hi : (runState c (State.init oracle) toks).slots[i]? = some sl) (hg : sl.gone = false)
+    (hst : sl.o.st = .plain ∨ sl.o.st = .prot .unlocked .rw) :
+    step c (runState c (State.init oracle) toks) ⟨.zeroize, i⟩ =
+      step c (runState c (State.init oracle) toks) ⟨.fill 0, i⟩ :=
+  zeroize_eq_fill_zero c _ (rec_runState toks (rec_init oracle)) i sl hi hg hst
+
+/-- **`zeroize_preserves_inv_iff`**: on a live slot of a state satisfying `Inv`, the token `zeroize` preserves
+`Inv` EXACTLY when the region is empty, a bare container, or an `Unlocked` read-write region (on a slot that is
+out of range or consumed it changes nothing: `zeroize_not_live`) -/
+theorem zeroize_preserves_inv_iff (c : Cfg) (hP : 0 < c.P) (s : State) (h : Inv c s) (i : Nat) (sl : Slot)
+    (hi : s.slots[i]? = some sl) (hg : sl.gone = false) :
+    Inv c (step c s ⟨.zeroize, i⟩).2 ↔
+      (sl.o.v.len = 0 ∨ sl.o.st = .plain ∨ sl.o.st = .prot .unlocked .rw) :=
+  Proofs.Protected.zeroize_preserves_inv_iff c hP h hi hg
+
+theorem zeroize_not_live (c : Cfg) (s : State) (i : Nat)
+    (h : s.slots[i]? = none ∨ ∃ sl, s.slots[i]? = some sl ∧ sl.gone = true) :
+    (step c s ⟨.zeroize, i⟩).2 = resetRel s :=
+  Proofs.Protected.zeroize_not_live c s i h
+
+/-- `zeroize` never creates a stray lock (it only unlocks / re-protects the region's own data pages), whatever
+the type state -/
+theorem zeroize_keeps_tight (c : Cfg) (hP : 0 < c.P) (s : State) (h : Inv c s) (ht : Tight c s) (i : Nat) :
+    Tight c (step c s ⟨.zeroize, i⟩).2 :=
+  Proofs.Protected.tight_step hP h ht ⟨.zeroize, i⟩ (Or.inr (fun hl => by simpa using hl.1))
+
+/-- non-vacuity witness (`zeroize_preserves_inv_iff`, both sides; `zeroize_eq_fill_zero`): slot 0 `LockedRO`
+(16 bytes): `zeroize` is not harmless, the side condition of `inv_step` fails; slot 1 `Unlocked` read-write:
+harmless, and the same as `fill:00` -/
+example :
+    let c : Cfg := { P := 4096, isArr := false, n := 16 }
+    let s := runState c (State.init fun _ => true)
+      [⟨.new, 0⟩, ⟨.lock, 0⟩, ⟨.ro, 0⟩, ⟨.new, 0⟩, ⟨.fill 7, 1⟩, ⟨.lock, 1⟩, ⟨.unlock, 1⟩]
+    s.slots.map (fun sl => (sl.gone, sl.o.st, sl.o.v.len)) =
+      [(false, .prot .locked .ro, 16), (false, .prot .unlocked .rw, 16)] ∧
+    ZeroizesProtected s ⟨.zeroize, 0⟩ ∧ ¬ ZeroizesProtected s ⟨.zeroize, 1⟩ ∧
+    NoProtZeroize c (State.init fun _ => true)
+      [⟨.new, 0⟩, ⟨.lock, 0⟩, ⟨.ro, 0⟩, ⟨.new, 0⟩, ⟨.fill 7, 1⟩, ⟨.lock, 1⟩, ⟨.unlock, 1⟩, ⟨.zeroize, 1⟩] ∧
+    ¬ NoProtZeroize c (State.init fun _ => true) [⟨.new, 0⟩, ⟨.lock, 0⟩, ⟨.ro, 0⟩, ⟨.zeroize, 0⟩] ∧
+    ((step c s ⟨.zeroize, 1⟩).2.slots.map fun sl => sl.o.v.data) =
+      ((step c s ⟨.fill 0, 1⟩).2.slots.map fun sl => sl.o.v.data) := by
+  decide
+
+/-! ### the tokens `clonefrom`, `panicdrop`, `stacklock`, `serde` (witnesses; they are covered by `inv_step`,
+`tight_step`, `C15.release_zeroed_step`, `C19.result_ops_never_panic`, `C19.err_create_no_residue`) -/
+
+/-- `clonefrom` on two bare containers and on two `Locked` regions (where the harness' probe clone adds a second
+release), a refused one (panic: the half-built copy and the probe are released, the target is untouched),
+`panicdrop`, and the index errors -/
+example :
+    let c : Cfg := { P := 4096, isArr := false, n := 16 }
+    let toks : List Tok := [⟨.new, 0⟩, ⟨.new, 0⟩, ⟨.fill 0x11, 1⟩, ⟨.clonefrom 1, 0⟩, ⟨.lock, 0⟩, ⟨.lock, 1⟩,
+      ⟨.clonefrom 1, 0⟩, ⟨.failfrom 2, 0⟩, ⟨.clonefrom 1, 0⟩, ⟨.clonefrom 5, 0⟩, ⟨.clonefrom 0, 0⟩,
+      ⟨.ro, 1⟩, ⟨.clonefrom 1, 0⟩, ⟨.panicdrop, 0⟩, ⟨.panicdrop, 0⟩]
+    (run c (State.init fun _ => true) toks).map (fun r => (r.1, r.2.m.rel, lockedPages r.2.m.k)) =
+      [(.ok, [], 0), (.ok, [], 0), (.ok, [], 0), (.ok, [(16, 0)], 0), (.ok, [], 1), (.ok, [], 2),
+       (.ok, [(16, 0), (16, 0)], 2), (.ok, [], 2), (.panic, [(16, 0), (16, 0)], 2), (.noslot, [], 2),
+       (.noslot, [], 2), (.ok, [], 2), (.na, [], 2), (.ok, [(16, 0)], 1), (.ok, [], 1)] ∧
+    ((runState c (State.init fun _ => true) (toks.take 4)).slots.map fun sl => sl.o.v.data) =
+      [List.replicate 16 0x11, List.replicate 16 0x11] ∧
+    lockedPages (finish c (runState c (State.init fun _ => true) toks)).m.k = 0 := by
+  decide
+
+/-- `stacklock` and `serde` on a fixed-length array (16 bytes): a JSON array of the wrong length is an `err` AFTER
+the region was locked (it is released), a bincode one before anything is allocated -/
+example :
+    let c : Cfg := { P := 4096, isArr := true, n := 16 }
+    let toks : List Tok := [⟨.stacklock, 0⟩, ⟨.serde true 16, 0⟩, ⟨.serde true 15, 0⟩, ⟨.serde true 17, 0⟩,
+      ⟨.serde false 16, 0⟩, ⟨.serde false 3, 0⟩, ⟨.failfrom 1, 0⟩, ⟨.stacklock, 0⟩, ⟨.serde true 16, 0⟩]
+    (run c (State.init fun _ => true) toks).map (fun r => (r.1, r.2.m.rel, lockedPages r.2.m.k)) =
+      [(.ok, [], 1), (.ok, [], 2), (.err, [(16, 0)], 2), (.err, [(16, 0)], 2), (.ok, [], 3), (.err, [], 3),
+       (.ok, [], 3), (.err, [(16, 0)], 3), (.err, [(16, 0)], 3)] ∧
+    ((runState c (State.init fun _ => true) toks).slots.map fun sl => (sl.o.st, sl.o.rcd, sl.o.v.data)) =
+      [(.prot .locked .rw, (.locked, .rw), List.replicate 16 0x5a),
+       (.prot .locked .rw, (.locked, .rw), List.replicate 16 0x5a),
+       (.prot .locked .rw, (.locked, .rw), List.replicate 16 0x5a)] := by
+  decide
+
+/-- `serde` into `LockedBytes`: the JSON visitor grows the vector byte by byte (capacities 8, 16: the 8-byte block is
+released on the way), the bincode visitor sizes it at once (capacity 9); a refused lock releases what was built -/
+example :
+    let c : Cfg := { P := 4096, isArr := false, n := 4 }
+    let toks : List Tok := [⟨.serde true 0, 0⟩, ⟨.serde true 9, 0⟩, ⟨.serde false 9, 0⟩, ⟨.failfrom 1, 0⟩,
+      ⟨.serde true 9, 0⟩, ⟨.serde false 9, 0⟩, ⟨.stacklock, 0⟩]
+    (run c (State.init fun _ => true) toks).map (fun r => (r.1, r.2.m.rel, lockedPages r.2.m.k)) =
+      [(.ok, [], 0), (.ok, [(8, 0)], 1), (.ok, [], 2), (.ok, [], 2), (.err, [(8, 0), (16, 0)], 2),
+       (.err, [(9, 0)], 2), (.na, [], 2)] ∧
+    ((runState c (State.init fun _ => true) toks).slots.map fun sl => (sl.o.v.len, sl.o.v.cap, sl.o.v.data)) =
+      [(0, 0, []), (9, 16, List.replicate 9 0x5a), (9, 9, List.replicate 9 0x5a)] := by
+  decide
 
 /-! ### further non-vacuity witnesses -/
 
@@ -666,8 +1052,8 @@ condition of the leaky variant is decidable on concrete states (here: a `lock` o
 example :
     let s := runState c1Leaky (State.init fun _ => true) [⟨.new, 0⟩, ⟨.lock, 0⟩, ⟨.unlock, 0⟩, ⟨.ro, 0⟩]
     Inv c1Leaky s ∧ Tight c1Leaky s ∧ ¬ LocksNoAccess s ⟨.lock, 0⟩ ∧ (step c1Leaky s ⟨.lock, 0⟩).1 = .ok :=
-  ⟨inv_reachable _ (by decide) _ _,
-   tight_runState (by decide) _ (inv_init _ _) (tight_init _ _) (Or.inr (by decide)), by decide, by decide⟩
+  ⟨inv_reachable _ (by decide) _ _ (by decide),
+   tight_runState (by decide) _ (inv_init _ _) (tight_init _ _) (by decide) (Or.inr (by decide)), by decide, by decide⟩
 
 /-! ### Tie to the source: the allocator arithmetic and the system-call arguments as translated from `protected.rs`
 (`DryocVerif/Gen/Protected.lean`, regenerated by `tools/rs2lean.py` on every run) are the ones the model uses. -/
@@ -675,12 +1061,15 @@ example :
 theorem translated_page_round (size P : Nat) : Gen.Protected._page_round size P = Model.Protected.pageRound P size :=
   Proofs.GenProtected.page_round_eq_model size P
 
+/-- STATEMENT CHANGED: `alloc` now also appends `(base, size)` to the ghost allocation log `Kernel.al` (see
+`C15.alloc_release_balance_pairs`); the arithmetic is unchanged. -/
 theorem translated_alloc (c : Model.Protected.Cfg) (m : Model.Protected.Mach) (size : Nat) :
     Model.Protected.alloc c m size =
       (let P := c.P
        let base := m.k.brk
        let a := base * P
-       let k0 : Model.Protected.Kernel := { m.k with brk := base + Gen.Protected.allocate_size size P / P }
+       let k0 : Model.Protected.Kernel := { m.k with brk := base + Gen.Protected.allocate_size size P / P,
+                                                     al := m.k.al ++ [(base, size)] }
        let k1 := Model.Protected.mprotect P k0 a P .none
        let k2 := Model.Protected.mprotect P k1 (a + Gen.Protected.allocate_aft_offset size P) P .none
        let k3 := Model.Protected.mprotect P k2 (a + P) size .rw
@@ -704,5 +1093,35 @@ theorem translated_syscall_flags :
     ∧ Gen.Protected.mprotect_readwrite_prot = Proofs.GenProtected.permFlags .rw
     ∧ Gen.Protected.mprotect_noaccess_prot = Proofs.GenProtected.permFlags .none :=
   Proofs.GenProtected.syscall_flags
+
+/-! ## the transitions and the drop path as read off the source on every run
+
+See `Proofs/GenProtectedShape.lean`: every system call gets the start of the slice it was given; every wrapper returns at once on an
+empty slice; each of the five transitions is `swap_some_or_err(|old| { wrapper(old.a.as_slice())?; old.<field> = <value>; Ok(…) })`
+(the translator refuses any other body); `Zeroize for Protected` is, token for token, "if not empty: make writable if the RECORD says
+otherwise, wipe, unlock if the RECORD says locked", and `Drop` is `zeroize`. -/
+
+theorem translated_syscall_addresses : ∀ r ∈ Gen.Protected.syscall_addr_args, r.2 = "data.as_ptr()" :=
+  Proofs.GenProtectedShape.syscall_addresses
+
+theorem translated_empty_slice_guards :
+    Gen.Protected.empty_slice_guards =
+      [("dryoc_mlock", true), ("dryoc_munlock", true), ("dryoc_mprotect_readonly", true), ("dryoc_mprotect_readwrite", true),
+       ("dryoc_mprotect_noaccess", true)] :=
+  Proofs.GenProtectedShape.empty_slice_guards
+
+theorem translated_transitions :
+    Gen.Protected.transitions =
+      [("munlock", "dryoc_munlock", "old.a.as_slice()", "lm", "Unlocked", "A, PM, traits::Unlocked"),
+       ("mlock", "dryoc_mlock", "old.a.as_slice()", "lm", "Locked", "A, PM, traits::Locked"),
+       ("mprotect_readonly", "dryoc_mprotect_readonly", "old.a.as_slice()", "pm", "ReadOnly", "A, traits::ReadOnly, LM"),
+       ("mprotect_readwrite", "dryoc_mprotect_readwrite", "old.a.as_slice()", "pm", "ReadWrite", "A, traits::ReadWrite, LM"),
+       ("mprotect_noaccess", "dryoc_mprotect_noaccess", "old.a.as_slice()", "pm", "NoAccess", "A, traits::NoAccess, traits::Unlocked")] :=
+  Proofs.GenProtectedShape.transitions
+
+theorem translated_drop_path :
+    Gen.Protected.zeroize_body_is_canonical = true ∧ Gen.Protected.drop_is_zeroize = true ∧
+    Gen.Protected.deallocate_wipes_before_free = true :=
+  Proofs.GenProtectedShape.drop_path
 
 end DryocVerif.Properties.C14
